@@ -231,6 +231,13 @@ pub fn verif_cleared_timer_ids_len() -> usize {
     CLEARED_TIMER_IDS.lock().unwrap().len()
 }
 
+/// Empty the process-wide set of cleared timer ids (verification accessor: a simulator running many
+/// independent histories in one process starts each of them from the state of a fresh process)
+#[cfg(crux_verif)]
+pub fn verif_reset_cleared_timer_ids() {
+    *CLEARED_TIMER_IDS.lock().unwrap() = Default::default();
+}
+
 #[cfg(test)]
 mod test {
     use super::*;
